@@ -182,6 +182,7 @@ PROPS = {
             {"kind": "verus", "unit": "relop"},
             {"kind": "verus", "unit": "derive"},
             {"kind": "verus", "unit": "qsel"},
+            {"kind": "verus", "unit": "sortfn"},
             {"kind": "kani-mini", "crate": "sort", "harnesses": [
                 {"harness": "trysort::harness::insert_head_b5", "fn": "src/util/trysort.rs :: insert_head (unsafe, InsertionHole)",
                  "bound": "slices of at most 5 elements; comparator failing (error value or violation) at any call", "timeout": 600},
@@ -191,7 +192,7 @@ PROPS = {
         ],
         "unreached": [
             "trysort::merge (Kani counterexamples did not replay natively: verifier imprecision); of try_sort's driver only the two natural-run loops and `collapse` are under contract (the run reversal, the insertion extension and the merge loop are not)",
-            "quickselect / n_largest / sorted natives (call the comparator through the evaluator); util/try_heap.rs only by the bounded Kani companion (at most 6 elements)",
+            "of the sort / order-statistic natives: the argument evaluation, the collect of the elements and the calls into try_sort / TryHeap themselves (their comparator closures, the already-sorted scan, quickselect's partition and selection loop are under contract); util/try_heap.rs only by the bounded Kani companion (at most 6 elements)",
             "derived hash / to_str of containers, eq / hash of mappings and sets; of the derived eq / cmp closures the argument evaluation and the downcasts (`to_native!`) before the extracted statements; the compile-time halves of the add_dyn_func factories (overload lookup, arity checks); min / max (delegate to code written in the xray language)",
             "the format-specifier grammar (regex) and the numeric formatting in builtin/{int,floats,str}.rs",
         ],
